@@ -300,6 +300,11 @@ def solve_real(inst, tab, *, cores=1, shim=False, pool_log=False, order=(1, 0), 
         seqs = {}
 
         def run_op_integration(self, log_grid):
+            if self.n_pools > 1:
+                # adversarial schedule: earlier grid points finish later
+                import time as _t
+
+                _t.sleep(0.03 * (self.grid_size - log_grid[0]))
             res = saved_run(self, log_grid)
             pid = os.getpid()
             seqs[pid] = seqs.get(pid, 0) + 1
